@@ -26,14 +26,16 @@ def point_sets(seed, a, b):
         'edges': (np.array([0., a, 0., a, 0.5 * a, 0., a, 0.3 * a]), np.array([0., 0., b, b, 0., 0.4 * b, 0.7 * b, b])),
         'scatter7': (np.array([.11, .29, .43, .5, .68, .83, .97]) * a + e(3), np.array([.9, .13, .57, .5, .02, .71, .33]) * b),
         'grid': tuple(g.ravel() for g in np.meshgrid(np.linspace(0, a, 5), np.linspace(0, b, 4))),
+        # 2-D point arrays that are not C-contiguous (transposed mesh): results must keep the caller's indexing
+        'grid2d_T': tuple(g.T for g in np.meshgrid(np.linspace(0, a, 5), np.linspace(0.1 * b, b, 4))),
     }
 
 
 def cases(tier, seed):
     out = []
     for model, fb, (m, n), pset in itertools.product(['plate', 'cpanel', 'plate_w'], ['SSSS', 'FFFF', 'generic'], ORDS,
-                                                     ['single', 'edges', 'scatter7', 'grid']):
-        if tier == 'quick' and pset in ('edges', 'grid') and (m, n) not in [(2, 3), (4, 4)]:
+                                                     ['single', 'edges', 'scatter7', 'grid', 'grid2d_T']):
+        if tier == 'quick' and pset in ('edges', 'grid', 'grid2d_T') and (m, n) not in [(2, 3), (4, 4)]:
             continue
         out.append(dict(kind='panel', model=model, fbase=fb, m=m, n=n, pset=pset, seed=seed))
     for model in (['plate'] if tier == 'quick' else ['plate', 'cpanel', 'plate_w']):
@@ -104,14 +106,18 @@ def check_panel(case):
     ref, lam = pan.make_ref(cfg)
     ref = ref.base
     F = lam['ABD']
-    xs, ys = point_sets(seed, cfg['a'], cfg['b'])[case['pset']]
+    xs_in, ys_in = point_sets(seed, cfg['a'], cfg['b'])[case['pset']]
+    xs, ys = np.array(xs_in).ravel(), np.array(ys_in).ravel()       # C-order flattening = the caller's [i, j] indexing
     fails = []
     execs = 0
     known = 0
     for nm, c in amp_letters(ref, seed):
         ctx = dict(case=case, amplitudes=nm)
         cin = c.copy()
-        u, v, w, phix, phiy = p.uvw(cin, xs=xs.copy(), ys=ys.copy())
+        u = v = w = phix = phiy = None
+        u, v, w, phix, phiy = p.uvw(cin, xs=xs_in.copy(order='K'), ys=ys_in.copy(order='K'))
+        if np.shape(w) != np.shape(xs_in):
+            fails.append(fail('field arrays do not have the shape of the requested point arrays', sig=None, **ctx))
         execs += 1
         if not np.array_equal(cin, c):
             fails.append(fail('uvw modified the amplitude vector', sig=None, **ctx))
@@ -124,7 +130,9 @@ def check_panel(case):
         if case['model'] == 'plate_w':
             continue                       # the w-only field module offers displacements only
         for nl in (False, True):
-            res = p.strain(c.copy(), xs=xs.copy(), ys=ys.copy(), NLterms=nl)
+            res = p.strain(c.copy(), xs=xs_in.copy(order='K'), ys=ys_in.copy(order='K'), NLterms=nl)
+            if np.abs(np.asarray(res['x']) - xs_in).max() != 0 or np.abs(np.asarray(res['y']) - ys_in).max() != 0:
+                fails.append(fail('strain report does not return the requested coordinates', sig=None, **ctx))
             execs += 1
             got = np.array([res[k].ravel() for k in ('exx', 'eyy', 'gxy', 'kxx', 'kyy', 'kxy')])
             exp = ref.strain(c, xs, ys, nl=nl)
@@ -142,7 +150,7 @@ def check_panel(case):
                     good = False
                     break
             # stress = F * (the strains the package reports for the same request)
-            st = p.stress(c.copy(), xs=xs.copy(), ys=ys.copy(), NLterms=nl)
+            st = p.stress(c.copy(), xs=xs_in.copy(order='K'), ys=ys_in.copy(order='K'), NLterms=nl)
             execs += 1
             gotN = np.array([st[k].ravel() for k in ('Nxx', 'Nyy', 'Nxy', 'Mxx', 'Myy', 'Mxy')])
             expN = F.dot(got)
@@ -153,7 +161,7 @@ def check_panel(case):
                                       % (key, nl), sig=None, **ctx))
                     break
         # permutation of the points
-        if len(xs) > 1:
+        if len(xs) > 1 and xs_in.ndim == 1:
             perm = np.argsort(np.sin(np.arange(len(xs)) * 7.3))
             u2, v2, w2, px2, py2 = p.uvw(c.copy(), xs=xs[perm].copy(), ys=ys[perm].copy())
             execs += 1
